@@ -43,7 +43,11 @@ func (g *randGen) name() string {
 	if i >= len(wordsA)*len(wordsB) {
 		n += "Extra"
 	}
-	switch g.r.Intn(10) {
+	switch g.r.Intn(12) {
+	case 10:
+		return strings.ToLower(a) + fmt.Sprint(g.r.Intn(9)+1) + "_" + strings.ToLower(b) // lower_snake, digits before the underscore
+	case 11:
+		return strings.ToLower(a[:1]) + "_" + strings.ToLower(b) + "_" + strings.ToLower(a[1:2]) // single-letter segments
 	case 0:
 		return strings.ToLower(a) + "_" + strings.ToLower(b) // lower_snake
 	case 1:
